@@ -13,6 +13,7 @@ filesystem dict), os.path.join, collections.defaultdict, hl.ReferenceGenome / hl
 hl.Struct / hl.tstruct / hl.tlocus / hl.tarray / hl.tinterval (one real import interval is serialised by
 to_dict and parsed back by the Decoder), VDSMetadata, CombinerOutType, FatalError.
 """
+import json as _real_json
 import math
 import uuid as _real_uuid
 
@@ -462,6 +463,113 @@ def _patch_crosshair_fstrings():
 _patch_crosshair_fstrings()
 
 
+# ---- CrossHair tracing control -----------------------------------------------------------------------------
+def _tracing():
+    try:
+        from crosshair.tracers import is_tracing
+        return is_tracing()
+    except Exception:  # pragma: no cover
+        return False
+
+
+def _is_concrete(x, depth=0):
+    """Call with tracing off: True iff x is built only from real str/int/bool/None/list/tuple/dict."""
+    t = type(x)
+    if t in (str, int, bool, type(None)):
+        return True
+    if depth > 6:
+        return False
+    if isinstance(x, (list, tuple)) and t.__module__ != 'crosshair.libimpl.builtinslib':
+        return all(_is_concrete(y, depth + 1) for y in x)
+    if isinstance(x, dict) and t.__module__ != 'crosshair.libimpl.builtinslib':
+        return all(_is_concrete(k, depth + 1) and _is_concrete(v, depth + 1) for k, v in x.items())
+    return False
+
+
+def _realize_tree(x):
+    """The same JSON-like tree with every symbolic leaf made concrete (one path per value)."""
+    from crosshair.tracers import NoTracing
+    with NoTracing():
+        return _realize_tree_nt(x)
+
+
+def _realize_tree_nt(x):
+    t = type(x)
+    if t in (str, int, bool, type(None)):
+        return x
+    if t is list:
+        return [_realize_tree_nt(y) for y in x]
+    if isinstance(x, tuple):
+        vals = [_realize_tree_nt(y) for y in x]
+        return t(*vals) if hasattr(x, '_fields') else tuple(vals)
+    if t is dict:
+        return {_realize_tree_nt(k): _realize_tree_nt(v) for k, v in x.items()}
+    if t.__module__.startswith('crosshair.'):
+        from crosshair.core import deep_realize
+        return deep_realize(x)
+    return x
+
+
+def _state_is_concrete(c):
+    """Tracing must be off.  True iff the combiner plan and the ghost store hold only concrete values."""
+    slots = [getattr(c, name) for name in ('_branch_factor', '_gvcf_batch_size', '_target_records', '_gvcfs',
+                                           '_gvcf_sample_names', '_gvcf_external_header', '_call_fields')]
+    if not all(_is_concrete(v) for v in slots):
+        return False
+    if not _is_concrete({k: [tuple(md) for md in v] for k, v in c._vdses.items()}):
+        return False
+    return all(_is_concrete(g.ids) and _is_concrete(g.pairs) for g in W.datasets.values())
+
+
+class _Json:
+    """The module's `json`: the REAL json.dump/json.load with the real Encoder/Decoder classes.  Under CrossHair
+    the stdlib encoder/decoder loops run with tracing off on concrete data (the tree returned by the traced
+    Encoder.default/to_dict is realised first - the numbers would be realised when written as text anyway),
+    while Encoder.default, to_dict, Decoder._object_hook and __init__ run traced."""
+
+    def __getattr__(self, name):
+        return getattr(_real_json, name)
+
+    @staticmethod
+    def dump(obj, fp, *, cls=None, **kw):
+        if not _tracing():
+            return _real_json.dump(obj, fp, cls=cls, **kw)
+        from crosshair.tracers import NoTracing, ResumedTracing
+        enc = (cls or _real_json.JSONEncoder)(**kw)
+        real_default = enc.default
+
+        def default(o):
+            with ResumedTracing():
+                return _realize_tree(real_default(o))
+
+        enc.default = default
+        top = _realize_tree(obj)
+        with NoTracing():
+            text = ''.join(enc.iterencode(top))
+        fp.write(text)
+
+    @staticmethod
+    def load(fp, *, cls=None, **kw):
+        if not _tracing():
+            return _real_json.load(fp, cls=cls, **kw)
+        from crosshair.tracers import NoTracing
+        text = _realize(fp.read())
+        with NoTracing():  # concrete text in, concrete plan out: Decoder._object_hook and __init__ run untraced
+            return _real_json.loads(text, cls=cls, **kw)
+
+
+def _untraced(f):
+    """A real hail constructor that only ever receives concrete interval/locus/reference-genome objects: run it
+    without CrossHair's tracer (hail's typecheck wrappers are very slow under tracing)."""
+    def call(*a, **k):
+        if not _tracing():
+            return f(*a, **k)
+        from crosshair.tracers import NoTracing
+        with NoTracing():
+            return f(*a, **k)
+    return call
+
+
 # ---- namespace proxies -------------------------------------------------------------------------------------
 class _Proxy:
     def __init__(self, real, over):
@@ -494,6 +602,11 @@ HL_OVERRIDES = {
     'agg': _Proxy(_hl.agg, {'collect': _collect}),
     'Table': _Proxy(_hl.Table, {'_generate': _generate}),
     'current_backend': lambda: _Backend,
+    'Struct': _untraced(_hl.Struct),
+    'Interval': _untraced(_hl.Interval),
+    'tstruct': _untraced(_hl.tstruct),
+    'tarray': _untraced(_hl.tarray),
+    'tinterval': _untraced(_hl.tinterval),
     'get_reference': _get_reference,
     'eval': lambda x: x,
     'get_vcf_header_info': _get_vcf_header_info,
@@ -507,6 +620,7 @@ HL_OVERRIDES = {
 
 MODULE_OVERRIDES = {
     'hl': _Proxy(_hl, HL_OVERRIDES),
+    'json': _Json(),
     'uuid': _Proxy(_real_uuid, {'uuid4': _uuid4}),
     'VariantDataset': _GhostVariantDataset,
     'tmatrix': _GhostMatrixType,
@@ -567,20 +681,25 @@ def execute(n_gvcfs, vds_sizes, branch_factor, batch_size, resume, external_head
     global W
     W = World()
     branch_factor = case_split(branch_factor, 2, 4)
-    batch_size = case_split(batch_size, 1, 3)
+    if n_gvcfs > 0:  # without gvcfs the batch size takes part in no arithmetic
+        batch_size = case_split(batch_size, 1, 3)
     n_inputs = n_gvcfs + len(vds_sizes)
     bound = n_inputs + 8
     steps = 0
     try:
         c = new_combiner(n_gvcfs, vds_sizes, branch_factor, batch_size, external_header)
+        concrete = False  # becomes True once plan and store hold no symbolic value (after the first load)
         while not c.finished:
             if steps >= bound:
                 return False, f'not finished after {bound} steps', steps, W.loads
             if _bit(resume, steps):
-                c.save()
-                c = VariantDatasetCombiner.load(SAVE)
+                c = _untraced_if(concrete, _save_and_load, c)
                 W.loads += 1
-            c.step()
+                if not concrete and _tracing():
+                    from crosshair.tracers import NoTracing
+                    with NoTracing():
+                        concrete = _state_is_concrete(c)
+            _untraced_if(concrete, _step, c)
             steps += 1
     except Exception as e:  # CrossHair's control exceptions derive from BaseException
         return False, f'raised {type(e).__name__}: {e}', steps, W.loads
@@ -597,6 +716,25 @@ def execute(n_gvcfs, vds_sizes, branch_factor, batch_size, resume, external_head
     if len(got.pairs) != n_gvcfs:
         return False, 'final dataset lost gvcf sample ids', steps, W.loads
     return True, 'ok', steps, W.loads
+
+
+def _save_and_load(c):
+    c.save()
+    return VariantDatasetCombiner.load(SAVE)
+
+
+def _step(c):
+    c.step()
+
+
+def _untraced_if(concrete, f, c):
+    """Once every value in the plan is concrete the real code is executed without CrossHair's tracer (there is
+    nothing symbolic left for it to fork on; only the remaining resume bools are consulted, traced, in execute)."""
+    if not concrete:
+        return f(c)
+    from crosshair.tracers import NoTracing
+    with NoTracing():
+        return f(c)
 
 
 def case_split(x, lo, hi):
